@@ -6,6 +6,7 @@
 
 pub mod alloc;
 pub mod choices;
+pub mod compensate;
 pub mod curves;
 pub mod drive;
 pub mod drive_ref;
